@@ -199,7 +199,13 @@ int mantis_ctr_init(MantisCTR_t *ctr)
     ctr->vtable = vtable;
 
     /* Initialize the CTR mode context */
-    return (*(vtable->init))(ctr);
+    if (!(*(vtable->init))(ctr)) {
+        /* Leave an inert object behind if the allocation failed */
+        ctr->vtable = 0;
+        ctr->ctx = 0;
+        return 0;
+    }
+    return 1;
 }
 
 void mantis_ctr_cleanup(MantisCTR_t *ctr)
